@@ -25,6 +25,8 @@ for d in sorted(glob.glob('/verif/seeded/*/')):
             rows.append((name, 'patch does not apply', []))
             continue
         fired = {}
+        os.makedirs(f'/tmp/reeval/{name}-verif', exist_ok=True)
+        run(f'cp /verif/known_findings.json /tmp/reeval/{name}-verif/')  # open known findings must not count as detections
         for c in manifest['checks']:
             pid = c['property_id']
             rc, out = run(f'/verif/bin/atreelint -prop {pid} -tier quick -repo {wt} -verif /tmp/reeval/{name}-verif -no-evidence')
